@@ -1,2 +1,414 @@
-/- Property theorems for C18 (placeholder until the proofs land). -/
-import Avt.Spec.C18
+/-
+  Avt.Props.C18 — property theorems for C18 (tab stops).  Helper lemmas: Avt/Lemmas/C18.lean.
+
+  All statements are unbounded: every width, every stop vector satisfying the invariant's clause
+  `tabsOK` (sorted, duplicate-free, inside `(0, cols)`), every count, every resize chain.
+  The reference notions (`tabsRef`, `setRef`, `unsetRef`, `nthAfter`, `nthBefore`, `resizeRef`,
+  `tabSpec`) are the decidable definitions of Avt/Spec/C18.lean, which the oracle evaluates on the
+  implementation's states.
+-/
+import Avt.Lemmas.C18
+import Avt.Lemmas.C18Frame
+
+namespace Avt
+open Avt.Spec Avt.Spec.C18 Avt.Lemmas.C18
+
+/-! ### defaults -/
+
+/-- a fresh terminal has a stop at every multiple of 8 strictly between 0 and its width -/
+theorem C18_new (cols : Nat) : Tabs.new cols = tabsRef cols := new_eq_tabsRef cols
+
+theorem C18_new_terminal {cols rows : Nat} {lim : Option Nat} {t : Terminal}
+    (h : Terminal.new cols rows lim = some t) : t.tabs = tabsRef t.cols := by
+  unfold Terminal.new at h
+  cases hc : csub rows 1 <;> simp [hc] at h
+  subst h
+  exact C18_new cols
+
+/-- the reference in words -/
+theorem C18_tabsRef_mem (cols x : Nat) : x ∈ tabsRef cols ↔ 0 < x ∧ x < cols ∧ x % 8 = 0 := mem_tabsRef
+
+/-! ### set / unset / clear: sorted-set semantics -/
+
+/-- `Tabs::set` is sorted-set insertion: the result is sorted and duplicate-free, has exactly the old
+    members plus `col`, and stays inside the screen under the guard `0 < col < cols` -/
+theorem C18_set {tabs : List Nat} {cols col : Nat} (h : tabsOK tabs cols = true)
+    (h0 : 0 < col) (h1 : col < cols) :
+    Tabs.set tabs col = setRef tabs col
+      ∧ (∀ x, x ∈ Tabs.set tabs col ↔ x = col ∨ x ∈ tabs)
+      ∧ tabsOK (Tabs.set tabs col) cols = true := by
+  have hs := ((tabsOK_iff _ _).1 h)
+  refine ⟨set_eq_setRef tabs col hs.1, mem_set tabs col, ?_⟩
+  rw [tabsOK_iff]
+  refine ⟨sorted_set tabs col hs.1, ?_⟩
+  intro x hx
+  rcases (mem_set tabs col x).1 hx with rfl | hx
+  · exact ⟨h0, h1⟩
+  · exact hs.2 x hx
+
+/-- `Tabs::unset` is sorted-set removal -/
+theorem C18_unset {tabs : List Nat} {cols : Nat} (col : Nat) (h : tabsOK tabs cols = true) :
+    Tabs.unset tabs col = unsetRef tabs col
+      ∧ (∀ x, x ∈ Tabs.unset tabs col ↔ x ∈ tabs ∧ x ≠ col)
+      ∧ tabsOK (Tabs.unset tabs col) cols = true := by
+  have hs := ((tabsOK_iff _ _).1 h)
+  refine ⟨unset_eq_unsetRef tabs col hs.1, ?_, ?_⟩
+  · intro x; simp [Tabs.unset]
+  · rw [tabsOK_iff]
+    refine ⟨hs.1.filter _, ?_⟩
+    intro x hx
+    exact hs.2 x (List.mem_filter.1 hx).1
+
+/-- clearing all stops -/
+theorem C18_clear (cols : Nat) : tabsOK [] cols = true := rfl
+
+/-! ### n-th next / previous stop -/
+
+/-- `Tabs::after(pos, n)` (for `n ≥ 1`, which `as_usize(_, 1)` guarantees) does not panic and returns
+    the `n`-th stop greater than `pos` -/
+theorem C18_after {tabs : List Nat} {cols : Nat} (pos : Nat) {n : Nat} (h : tabsOK tabs cols = true)
+    (hn : 0 < n) : Tabs.after tabs pos n = some (nthAfter tabs pos n) :=
+  after_eq tabs pos n ((tabsOK_iff _ _).1 h).1 hn
+
+/-- `Tabs::before(pos, n)` returns the `n`-th stop smaller than `pos`, counting leftwards -/
+theorem C18_before {tabs : List Nat} {cols : Nat} (pos : Nat) {n : Nat} (h : tabsOK tabs cols = true)
+    (hn : 0 < n) : Tabs.before tabs pos n = some (nthBefore tabs pos n) :=
+  before_eq tabs pos n ((tabsOK_iff _ _).1 h).1 hn
+
+/-- the stops found are real stops on the requested side -/
+theorem C18_after_mem {tabs : List Nat} {pos n x : Nat} (h : nthAfter tabs pos n = some x) :
+    x ∈ tabs ∧ pos < x := nthAfter_mem h
+
+theorem C18_before_mem {tabs : List Nat} {pos n x : Nat} (h : nthBefore tabs pos n = some x) :
+    x ∈ tabs ∧ x < pos := nthBefore_mem h
+
+/-! ### the tab functions on the terminal -/
+
+/-- HTS, TBC, CTC, HT, CHT, CBT never panic and do exactly what `tabSpec` says: the stop vector (under
+    the guards: no stop at column 0, none at the wrap-pending column) or the cursor column changes,
+    nothing else does -/
+theorem C18_tabop {t : Terminal} {f : Function} (h : TInv t = true) (hf : isTabOp f = true) :
+    t.execute f = some (tabSpec t f) := tabop_eq h hf
+
+/-- the tab moves in the property's words: the cursor lands on the `n`-th next / previous stop, or in
+    the last / first column when there is none; it never leaves the screen; the row is kept -/
+theorem C18_moves {t : Terminal} (h : TInv t = true) (n : Nat) :
+    (tabForward t n).cursor.col = (nthAfter t.tabs t.cursor.col n).getD (t.cols - 1)
+      ∧ (tabBackward t n).cursor.col = (nthBefore t.tabs t.cursor.col n).getD 0
+      ∧ (tabForward t n).cursor.col < t.cols ∧ (tabBackward t n).cursor.col < t.cols
+      ∧ (tabForward t n).cursor.row = t.cursor.row ∧ (tabBackward t n).cursor.row = t.cursor.row := moves h n
+
+/-- every tab function keeps the stop vector sorted, duplicate-free and inside the screen -/
+theorem C18_tabop_tabsOK {t : Terminal} {f : Function} (h : TInv t = true) (hf : isTabOp f = true) :
+    tabsOK (tabSpec t f).tabs (tabSpec t f).cols = true := by
+  have hok := TInv_tabsOK h
+  have hs := TInv_sorted h
+  have hset : tabsOK (setAtCursor t.tabs t.cursor.col t.cols) t.cols = true := by
+    unfold setAtCursor
+    split
+    · rename_i hg
+      rw [← set_eq_setRef _ _ hs]
+      exact (C18_set hok hg.1 hg.2).2.2
+    · exact hok
+  have hun : tabsOK (unsetRef t.tabs t.cursor.col) t.cols = true := by
+    rw [← unset_eq_unsetRef _ _ hs]
+    exact (C18_unset _ hok).2.2
+  cases f <;> simp only [isTabOp, Bool.false_eq_true] at hf
+  case cbt n => exact hok
+  case cht n => exact hok
+  case ht => exact hok
+  case hts => exact hset
+  case ctc op => cases op <;> first | exact hset | exact hun | rfl
+  case tbc s => cases s <;> first | exact hun | rfl
+
+/-! ### resize -/
+
+/-- `Tabs::contract` keeps exactly the stops below the new width; `Tabs::expand` keeps every stop and
+    adds every multiple of 8 in `[cols, cols')` — including `cols` itself when it is a multiple of 8 -/
+theorem C18_resize_tabs {tabs : List Nat} {cols : Nat} (cols' : Nat) (h : tabsOK tabs cols = true) :
+    Tabs.contract tabs cols' = tabs.filter (· < cols')
+      ∧ Tabs.expand tabs cols cols' = tabs ++ defaultsIn cols cols'
+      ∧ (∀ x, x ∈ defaultsIn cols cols' ↔ cols ≤ x ∧ x < cols' ∧ x % 8 = 0) :=
+  ⟨contract_eq tabs cols' ((tabsOK_iff _ _).1 h).1, expand_eq .., fun _ => mem_defaultsIn⟩
+
+/-- the boundary case the property singles out: widening from a width that is a multiple of 8 adds a
+    stop in the first new column (80 → 100 gains the stop at column 80) -/
+theorem C18_resize_boundary {tabs : List Nat} {cols cols' : Nat} (h8 : cols % 8 = 0) (hlt : cols < cols') :
+    cols ∈ Tabs.expand tabs cols cols' := by
+  rw [expand_eq]
+  exact List.mem_append_right _ (mem_defaultsIn.2 ⟨Nat.le_refl _, hlt, h8⟩)
+
+/-- `Terminal::resize`: whenever it returns, the stop vector is the old one transformed by the
+    contract / expand rule, and it is again sorted, duplicate-free and inside the new screen -/
+theorem C18_resize {t t' : Terminal} {cols' rows' : Nat} (h : TInv t = true)
+    (hr : t.resize cols' rows' = some t') :
+    t'.tabs = resizeRef t.tabs t.cols cols' ∧ t'.cols = cols' ∧ tabsOK t'.tabs t'.cols = true := by
+  have e := resize_tabs hr
+  have hs := TInv_sorted h
+  rw [resizedTabs_eq _ _ _ hs] at e
+  refine ⟨e.1, e.2.1, ?_⟩
+  rw [e.1, e.2.1]
+  exact tabsOK_resizeRef _ _ _ (TInv_tabsOK h) (TInv_cols_pos h)
+
+/-- a never-customised terminal has, after any resize, the stops of a fresh terminal of the new width -/
+theorem C18_never_customised {t t' : Terminal} {cols' rows' : Nat} (hc : 1 ≤ t.cols)
+    (h : t.tabs = tabsRef t.cols) (hr : t.resize cols' rows' = some t') :
+    t'.tabs = tabsRef t'.cols ∧ 1 ≤ t'.cols := by
+  have e := resize_tabs hr
+  rw [resizedTabs_eq _ _ _ (h ▸ sorted_tabsRef _), h, resizeRef_tabsRef _ _ hc] at e
+  exact ⟨by rw [e.1, e.2.1], by rw [e.2.1]; exact e.2.2⟩
+
+/-- a chain of resizes (`none` as soon as one panics) -/
+def C18_resizeChain : Terminal → List (Nat × Nat) → Option Terminal
+  | t, [] => some t
+  | t, (c, r) :: rest => match t.resize c r with | some t' => C18_resizeChain t' rest | none => none
+
+/-- … and after every chain of resizes -/
+theorem C18_never_customised_chain : ∀ (sizes : List (Nat × Nat)) {t t' : Terminal}, 1 ≤ t.cols →
+    t.tabs = tabsRef t.cols → C18_resizeChain t sizes = some t' → t'.tabs = tabsRef t'.cols
+  | [], t, t', _, h, hr => by cases hr; exact h
+  | (c, r) :: rest, t, t', hc, h, hr => by
+    unfold C18_resizeChain at hr
+    cases h1 : t.resize c r with
+    | none => simp [h1] at hr
+    | some t1 =>
+      simp only [h1] at hr
+      have e := C18_never_customised hc h h1
+      exact C18_never_customised_chain rest e.2 e.1 hr
+
+/-- from power-on: a terminal that is only ever resized tabs like a fresh one of its current width -/
+theorem C18_fresh_chain {cols rows : Nat} {lim : Option Nat} {t t' : Terminal} (hc : 1 ≤ cols)
+    (h : Terminal.new cols rows lim = some t) (sizes : List (Nat × Nat))
+    (hr : C18_resizeChain t sizes = some t') : t'.tabs = Tabs.new t'.cols := by
+  rw [C18_new]
+  have hcols : t.cols = cols := by
+    unfold Terminal.new at h
+    cases hc' : csub rows 1 <;> simp [hc'] at h
+    subst h; rfl
+  exact C18_never_customised_chain sizes (by omega) (C18_new_terminal h) hr
+
+/-! ### never customised, over arbitrary histories -/
+
+/-- what a public call does to the terminal: execute a parsed function, resize, or the `changes()` +
+    `gc()` tail of `feed_str` / `resize`.  Every history of `Vt::feed_str` / `Vt::feed` / `Vt::resize`
+    calls projects to a list of these. -/
+inductive C18_Op where
+  | exec (f : Function)
+  | resize (cols rows : Nat)
+  | finish
+
+def C18_step (t : Terminal) : C18_Op → Option Terminal
+  | .exec f => t.execute f
+  | .resize c r => t.resize c r
+  | .finish => some (finishT t)
+
+def C18_run : Terminal → List C18_Op → Option Terminal
+  | t, [] => some t
+  | t, op :: ops => match C18_step t op with | some t' => C18_run t' ops | none => none
+
+/-- the history contains no HTS / TBC / CTC -/
+def C18_neverEdits (ops : List C18_Op) : Prop := ∀ f, C18_Op.exec f ∈ ops → editsTabs f = false
+
+/-- one step keeps "has exactly the default stops of the current width" -/
+theorem C18_never_customised_step {t t' : Terminal} {op : C18_Op} (hc : 1 ≤ t.cols)
+    (h : t.tabs = tabsRef t.cols) (hop : ∀ f, op = .exec f → editsTabs f = false)
+    (hr : C18_step t op = some t') : t'.tabs = tabsRef t'.cols ∧ 1 ≤ t'.cols := by
+  cases op with
+  | resize c r => exact C18_never_customised hc h hr
+  | finish =>
+    simp only [C18_step, Option.some.injEq] at hr
+    subst hr
+    have e : (finishT t).tabs = t.tabs ∧ (finishT t).cols = t.cols := by
+      unfold finishT Terminal.gc Terminal.changes
+      exact ⟨rfl, rfl⟩
+    rw [e.1, e.2]
+    exact ⟨h, hc⟩
+  | exec f =>
+    have hf := hop f rfl
+    simp only [C18_step] at hr
+    by_cases ht : touchesTabs f = false
+    · have e := execute_frame ht hr
+      rw [e.1, e.2]
+      exact ⟨h, hc⟩
+    · cases f <;> simp only [touchesTabs, editsTabs, Bool.true_eq_false, not_true_eq_false,
+        not_false_eq_true] at ht hf
+      case ris =>
+        simp only [Terminal.execute, Terminal.hardReset] at hr
+        cases hcs : csub t.rows 1 <;> simp [hcs] at hr
+        subst hr
+        exact ⟨C18_new t.cols, hc⟩
+      case xtwinops c r =>
+        simp only [Terminal.execute, Terminal.xtwinopsF] at hr
+        split at hr
+        · exact C18_never_customised hc h hr
+        · cases hr; exact ⟨h, hc⟩
+
+/-- a terminal whose stops were never edited has, after ANY history of function executions and
+    resizes (RIS included), exactly the stops of a fresh terminal of its current width — so it tabs
+    like a fresh one (`C18_tabop` reads only `tabs`, `cols` and the cursor) -/
+theorem C18_never_customised_history : ∀ (ops : List C18_Op) {t t' : Terminal}, 1 ≤ t.cols →
+    t.tabs = tabsRef t.cols → C18_neverEdits ops → C18_run t ops = some t' →
+    t'.tabs = tabsRef t'.cols
+  | [], t, t', _, h, _, hr => by cases hr; exact h
+  | op :: ops, t, t', hc, h, hn, hr => by
+    unfold C18_run at hr
+    cases h1 : C18_step t op with
+    | none => simp [h1] at hr
+    | some t1 =>
+      simp only [h1] at hr
+      have e := C18_never_customised_step hc h
+        (fun f hf => hn f (by rw [hf]; exact List.mem_cons_self ..)) h1
+      exact C18_never_customised_history ops e.2 e.1
+        (fun f hf => hn f (List.mem_cons_of_mem _ hf)) hr
+
+/-! ### … and at the level of the public API (`Vt`) -/
+
+/-- the parser, started in state `p`, emits no HTS / TBC / CTC while reading `s` -/
+def C18_quiet : Parser → List Nat → Prop
+  | _, [] => True
+  | p, c :: cs =>
+    match p.feed c with
+    | some (p', some f) => editsTabs f = false ∧ C18_quiet p' cs
+    | some (p', none) => C18_quiet p' cs
+    | none => True
+
+/-- "has exactly the default stops of the current width" -/
+def C18_fresh (v : Vt) : Prop := v.terminal.tabs = tabsRef v.terminal.cols ∧ 1 ≤ v.terminal.cols
+
+theorem C18_never_customised_feedAll : ∀ (s : List Nat) {v v' : Vt}, C18_fresh v →
+    C18_quiet v.parser s → v.feedAll s = some v' → C18_fresh v'
+  | [], v, v', h, _, hr => by cases hr; exact h
+  | c :: cs, v, v', h, hq, hr => by
+    unfold Vt.feedAll at hr
+    cases h1 : v.feed c with
+    | none => simp [h1] at hr
+    | some v1 =>
+      simp only [h1] at hr
+      unfold C18_quiet at hq
+      unfold Vt.feed at h1
+      cases hp : v.parser.feed c with
+      | none => simp [hp] at h1
+      | some pf =>
+        obtain ⟨p', of⟩ := pf
+        cases of with
+        | none =>
+          simp only [hp, Option.some.injEq] at h1 hq
+          subst h1
+          exact C18_never_customised_feedAll cs (v := { v with parser := p' }) h hq hr
+        | some f =>
+          simp only [hp] at h1 hq
+          cases he : v.terminal.execute f with
+          | none => simp [he] at h1
+          | some t1 =>
+            simp only [he, Option.map_some, Option.some.injEq] at h1
+            subst h1
+            have e := C18_never_customised_step (op := .exec f) h.2 h.1
+              (fun g hg => by cases hg; exact hq.1) he
+            exact C18_never_customised_feedAll cs (v := { parser := p', terminal := t1 }) e hq.2 hr
+
+/-- a public call -/
+inductive C18_Call where
+  | feedStr (s : List Nat)
+  | feed (c : Nat)
+  | resize (cols rows : Nat)
+
+def C18_call (v : Vt) : C18_Call → Option Vt
+  | .feedStr s => (v.feedStr s).map (·.1)
+  | .feed c => v.feed c
+  | .resize c r => (v.resize c r).map (·.1)
+
+def C18_calls : Vt → List C18_Call → Option Vt
+  | v, [] => some v
+  | v, k :: ks => match C18_call v k with | some v' => C18_calls v' ks | none => none
+
+/-- no call of the history makes the parser emit HTS / TBC / CTC -/
+def C18_callsQuiet : Vt → List C18_Call → Prop
+  | _, [] => True
+  | v, k :: ks =>
+    (match k with
+      | .feedStr s => C18_quiet v.parser s
+      | .feed c => C18_quiet v.parser [c]
+      | .resize _ _ => True)
+    ∧ ∀ v', C18_call v k = some v' → C18_callsQuiet v' ks
+
+theorem C18_finish_fresh {v : Vt} (h : C18_fresh v) : C18_fresh (v.finish).1 := by
+  unfold Vt.finish Terminal.gc Terminal.changes
+  exact h
+
+theorem C18_never_customised_call {v v' : Vt} {k : C18_Call} (h : C18_fresh v)
+    (hq : match k with
+      | .feedStr s => C18_quiet v.parser s
+      | .feed c => C18_quiet v.parser [c]
+      | .resize _ _ => True)
+    (hr : C18_call v k = some v') : C18_fresh v' := by
+  cases k with
+  | feedStr s =>
+    simp only [C18_call, Vt.feedStr, Option.map_map] at hr
+    cases h1 : v.feedAll s with
+    | none => simp [h1] at hr
+    | some v1 =>
+      simp only [h1, Option.map_some, Function.comp, Option.some.injEq] at hr
+      subst hr
+      exact C18_finish_fresh (C18_never_customised_feedAll s h hq h1)
+  | feed c =>
+    simp only [C18_call] at hr
+    apply C18_never_customised_feedAll [c] h hq
+    simp only [Vt.feedAll, hr]
+  | resize c r =>
+    simp only [C18_call, Vt.resize, Option.map_map] at hr
+    cases h1 : v.terminal.resize c r with
+    | none => simp [h1] at hr
+    | some t1 =>
+      simp only [h1, Option.map_some, Function.comp, Option.some.injEq] at hr
+      subst hr
+      have e := C18_never_customised h.2 h.1 h1
+      exact C18_finish_fresh (v := { v with terminal := t1 }) e
+
+/-- the property's quantifier: after ANY history of `feed_str` / `feed` / `resize` calls in which no
+    stop was ever set or cleared, the stops are those of a fresh terminal of the current width -/
+theorem C18_never_customised_calls : ∀ (ks : List C18_Call) {v v' : Vt}, C18_fresh v →
+    C18_callsQuiet v ks → C18_calls v ks = some v' → v'.terminal.tabs = Tabs.new v'.terminal.cols
+  | [], v, v', h, _, hr => by cases hr; rw [C18_new]; exact h.1
+  | k :: ks, v, v', h, hq, hr => by
+    unfold C18_calls at hr
+    unfold C18_callsQuiet at hq
+    cases h1 : C18_call v k with
+    | none => simp [h1] at hr
+    | some v1 =>
+      simp only [h1] at hr
+      exact C18_never_customised_calls ks (C18_never_customised_call h hq.1 h1) (hq.2 v1 h1) hr
+
+/-- a freshly built `Vt` qualifies -/
+theorem C18_new_fresh {cols rows : Nat} {lim : Option Nat} {v : Vt} (hc : 1 ≤ cols)
+    (h : Vt.new cols rows lim = some v) : C18_fresh v := by
+  unfold Vt.new at h
+  cases ht : Terminal.new cols rows lim with
+  | none => simp [ht] at h
+  | some t =>
+    simp only [ht, Option.map_some, Option.some.injEq] at h
+    subst h
+    refine ⟨C18_new_terminal ht, ?_⟩
+    unfold Terminal.new at ht
+    cases hc' : csub rows 1 <;> simp [hc'] at ht
+    subst ht
+    exact hc
+
+/-! ### the hypotheses are satisfiable on a non-trivial state -/
+
+/-- 20 columns, customised stops `[3, 8, 17]`, cursor in the wrap-pending column -/
+def C18_example : Terminal :=
+  { cols := 20, rows := 3, buffer := Buffer.new 20 3 none none, otherBuffer := Buffer.new 20 3 (some 0) none,
+    activeBufferType := .primary, scrollbackLimit := none, cursor := { col := 20, row := 1 }, pen := {},
+    charsets := (.ascii, .ascii), activeCharset := 0, tabs := [3, 8, 17], insertMode := false,
+    originMode := false, autoWrapMode := true, newLineMode := false, cursorKeysMode := .normal,
+    pendingWrap := true, topMargin := 0, bottomMargin := 2, savedCtx := {}, alternateSavedCtx := {},
+    dirtyLines := Dirty.new 3, xtwinops := false }
+
+example : TInv C18_example = true ∧ isTabOp (.cbt 2) = true
+    ∧ (tabSpec C18_example (.cbt 2)).cursor.col = 8 ∧ (tabSpec C18_example (.cbt 2)).pendingWrap = false
+    ∧ tabsOK C18_example.tabs C18_example.cols = true
+    ∧ resizeRef C18_example.tabs 20 16 = [3, 8] ∧ resizeRef [8] 16 30 = [8, 16, 24]
+    ∧ (tabSpec { C18_example with cursor := { col := 5, row := 1 }, pendingWrap := false } .hts).tabs = [3, 5, 8, 17] := by
+  decide
+
+end Avt
